@@ -34,9 +34,18 @@ func (g *G) filterFor(kind string, bits int, addrs []string) *model.Filter {
 	case "bytes":
 		op := g.pick([]string{"contains", "!contains", "eq", "ne"})
 		n := g.between(1, 2)
+		if g.chance(12) {
+			// a long list (more arguments than any small chunk size)
+			n = g.between(9, 23)
+		}
 		var args []string
 		for i := 0; i < n; i++ {
 			a := addrs[g.R.IntN(len(addrs))]
+			if n > 2 && i >= len(addrs) && g.chance(70) {
+				a = g.addr()
+			} else if n > 2 && i < len(addrs) {
+				a = addrs[i] // every pool address once, somewhere in the list
+			}
 			switch g.R.IntN(4) {
 			case 0:
 				// as a checksummed address is written: mixed case
